@@ -27,6 +27,12 @@ ASSUMPTIONS = [
 
 # ---- reference -------------------------------------------------------------
 
+def dof_value(top):
+    """degrees of freedom as passed in: whole numbers, or the effective (fractional) residual dof a
+    GLM package reports"""
+    return st.one_of(st.integers(1, top), st.integers(1, top), st.sampled_from([2.5, 7.25, 11.75, 19.5]))
+
+
 def ref_cov(res, dof):
     """sum of outer products of column-demeaned rows / dof (explicit loops)"""
     res = np.asarray(res, dtype=float)
@@ -181,7 +187,7 @@ def residual_case(draw):
     n = draw(st.integers(2, 24)) if draw(st.booleans()) else draw(st.integers(2, max(2, p)))
     res = fix_constant_columns(draw(gen.matrix(n, p)))
     method = draw(st.sampled_from(METHODS))
-    dof = draw(st.one_of(st.none(), st.integers(1, 40)))
+    dof = draw(st.one_of(st.none(), dof_value(40)))
     res = rescale(res, draw(unit_exp))
     if p >= 2 and draw(st.integers(0, 3)) == 0:
         # channels recorded in different units (e.g. EEG in microvolt next to MEG in tesla)
@@ -240,9 +246,9 @@ def residual_list_case(draw):
     if dof_kind == 'none':
         dof = None
     elif dof_kind == 'scalar':
-        dof = draw(st.integers(1, 30))
+        dof = draw(dof_value(30))
     else:
-        dof = draw(st.lists(st.integers(1, 30), min_size=k, max_size=k))
+        dof = draw(st.lists(dof_value(30), min_size=k, max_size=k))
     return dict(mats=mats, form=form, method=method, dof=dof)
 
 
@@ -304,7 +310,7 @@ def dataset_case(draw):
     p = draw(st.integers(1, 6))
     meas = rescale(fix_zero_residual(draw(gen.matrix(len(des['obs']), p)), des['obs']), draw(unit_exp))
     method = draw(st.sampled_from(METHODS))
-    dof = draw(st.one_of(st.none(), st.none(), st.integers(1, 30)))
+    dof = draw(st.one_of(st.none(), st.none(), dof_value(30)))
     cont = draw(gen.container)
     return dict(design=des, meas=meas, method=method, dof=dof, container=cont)
 
@@ -395,8 +401,8 @@ def dataset_list_case(draw):
         s_['meas'] = rescale(s_['meas'], e)
     dof_kind = draw(st.sampled_from(['none', 'scalar', 'list']))
     dof = None if dof_kind == 'none' else (
-        draw(st.integers(1, 20)) if dof_kind == 'scalar'
-        else draw(st.lists(st.integers(1, 20), min_size=k, max_size=k)))
+        draw(dof_value(20)) if dof_kind == 'scalar'
+        else draw(st.lists(dof_value(20), min_size=k, max_size=k)))
     fn = draw(st.sampled_from(['unbalanced', 'measurements'] if balanced else ['unbalanced']))
     return dict(sets=sets, method=method, dof=dof, fn=fn)
 
